@@ -157,6 +157,13 @@ def driver_batch(requests: list[dict]) -> list[dict]:
 # case execution
 
 
+CASE_TIMEOUT_S = int(os.environ.get("VERIF_CASE_TIMEOUT", "20"))
+
+
+class CaseTimeout(BaseException):
+    pass
+
+
 def case_hash(case) -> str:
     return hashlib.blake2b(json.dumps(case, sort_keys=True, default=str).encode(), digest_size=8).hexdigest()
 
@@ -164,18 +171,43 @@ def case_hash(case) -> str:
 def eval_cases(mod, cases: list) -> list[dict]:
     """Runs impl + driver + judge on the cases; returns one record per case."""
     _enter_scratch()
+    import signal
+
+    def _alarm(signum, frame):
+        raise CaseTimeout()
+
+    can_alarm = hasattr(signal, "SIGALRM")
+    if can_alarm:
+        try:
+            old = signal.signal(signal.SIGALRM, _alarm)
+        except ValueError:  # not in the main thread
+            can_alarm = False
     reqs, obss = [], []
     for c in cases:
         try:
+            if can_alarm:
+                signal.alarm(CASE_TIMEOUT_S)
             obs = mod.run_impl(c)
+        except CaseTimeout:
+            obs = {"harness_exc": "CaseTimeout", "msg": f"the operation on the real code did not finish within {CASE_TIMEOUT_S} s"}
         except Exception as e:  # the harness itself must never die on a mutant
             obs = {"harness_exc": type(e).__name__, "msg": str(e)[:300], "tb": traceback.format_exc()[-1500:]}
+        finally:
+            if can_alarm:
+                signal.alarm(0)
         obss.append(obs)
         reqs.append(mod.request(c, obs))
+    if can_alarm:
+        signal.signal(signal.SIGALRM, old)
     resps = driver_batch(reqs)
     out = []
     for c, o, r in zip(cases, obss, resps):
-        out.append({"case": c, "obs": o, "resp": r, "verdict": mod.judge(c, o, r)})
+        v = mod.judge(c, o, r)
+        if o.get("harness_exc") == "CaseTimeout" and r.get("indomain", True):
+            # a bounded operation that does not come back is a concrete failing input (non-termination,
+            # e.g. a cyclic container), not an infrastructure problem
+            v = {"status": "oracle", "why": o["msg"] + " (non-termination: cyclic links or a loop that does not consume)"}
+        out.append({"case": c, "obs": o, "resp": r, "verdict": v})
     return out
 
 
